@@ -29,7 +29,7 @@ func init() {
 			u.assume(app(">", n, "0"))
 			u.heapSet(st, "$clock", n)
 			u.note("time.Now(): fresh instant, never before an earlier reading in the same execution (clock monotone)")
-			return intV(n)
+			return zoned(intV(n), u.zoneConst("zone_local"))
 		},
 		"(time.Time).Before": func(fr *Frame, st *State, a []Val, _ ssa.Instruction) Val { return boolV(app("<", a[0].T, a[1].T)) },
 		"(time.Time).After":  func(fr *Frame, st *State, a []Val, _ ssa.Instruction) Val { return boolV(app(">", a[0].T, a[1].T)) },
@@ -40,15 +40,19 @@ func init() {
 		"(time.Time).IsZero": func(fr *Frame, st *State, a []Val, _ ssa.Instruction) Val { return boolV(eq(a[0].T, "0")) },
 		"(time.Time).Add": func(fr *Frame, st *State, a []Val, _ ssa.Instruction) Val {
 			fr.u.note("time.Time.Add / Duration arithmetic treated as mathematical (no saturation/overflow)")
-			return intV(app("+", a[0].T, a[1].T))
+			return zoned(intV(app("+", a[0].T, a[1].T)), a[0].Zone)
 		},
 		"(time.Time).Sub": func(fr *Frame, st *State, a []Val, _ ssa.Instruction) Val {
 			fr.u.note("time.Time.Sub treated as mathematical (no saturation)")
 			return intV(app("-", a[0].T, a[1].T))
 		},
-		"(time.Time).UTC":      func(fr *Frame, st *State, a []Val, _ ssa.Instruction) Val { return intV(a[0].T) },
-		"(time.Time).Local":    func(fr *Frame, st *State, a []Val, _ ssa.Instruction) Val { return intV(a[0].T) },
-		"(time.Time).In":       func(fr *Frame, st *State, a []Val, _ ssa.Instruction) Val { return intV(a[0].T) },
+		"(time.Time).UTC": func(fr *Frame, st *State, a []Val, _ ssa.Instruction) Val {
+			return zoned(intV(a[0].T), fr.u.zoneConst("zone_utc"))
+		},
+		"(time.Time).Local": func(fr *Frame, st *State, a []Val, _ ssa.Instruction) Val {
+			return zoned(intV(a[0].T), fr.u.zoneConst("zone_local"))
+		},
+		"(time.Time).In": func(fr *Frame, st *State, a []Val, _ ssa.Instruction) Val { return zoned(intV(a[0].T), a[1].T) },
 		"(time.Time).Round":    calUF("time_round", 2),
 		"(time.Time).Truncate": calUF("time_trunc", 2),
 		"time.Since": func(fr *Frame, st *State, a []Val, in ssa.Instruction) Val {
@@ -71,15 +75,17 @@ func init() {
 		"time.Unix": func(fr *Frame, st *State, a []Val, _ ssa.Instruction) Val {
 			return intV("(+ (* " + a[0].T + " 1000000000) " + a[1].T + " " + unixEpochNs + ")")
 		},
-		"(time.Time).Hour":    calRange("cal_hour", 0, 23),
-		"(time.Time).Minute":  calRange("cal_minute", 0, 59),
-		"(time.Time).Second":  calRange("cal_second", 0, 59),
-		"(time.Time).Day":     calRange("cal_day", 1, 31),
-		"(time.Time).Month":   calRange("cal_month", 1, 12),
-		"(time.Time).Weekday": calRange("cal_weekday", 0, 6),
-		"(time.Time).Year":    calUF("cal_year", 1),
-		"(time.Time).YearDay": calRange("cal_yday", 1, 366),
-		"(time.Time).Location": calUF("cal_loc", 1),
+		"(time.Time).Hour":    calZone("cal_hour", 0, 23, true),
+		"(time.Time).Minute":  calZone("cal_minute", 0, 59, true),
+		"(time.Time).Second":  calZone("cal_second", 0, 59, true),
+		"(time.Time).Day":     calZone("cal_day", 1, 31, true),
+		"(time.Time).Month":   calZone("cal_month", 1, 12, true),
+		"(time.Time).Weekday": calZone("cal_weekday", 0, 6, true),
+		"(time.Time).Year":    calZone("cal_year", 0, 0, false),
+		"(time.Time).YearDay": calZone("cal_yday", 1, 366, true),
+		"(time.Time).Location": func(fr *Frame, st *State, a []Val, _ ssa.Instruction) Val {
+			return intV(fr.u.zoneOf(a[0]))
+		},
 		"(time.Duration).Seconds": func(fr *Frame, st *State, a []Val, _ ssa.Instruction) Val {
 			return Val{T: "(/ (to_real " + a[0].T + ") 1000000000.0)", S: "Real"}
 		},
@@ -259,6 +265,36 @@ func calUF(name string, n int) trustedFn {
 		f := u.enc.declFun(name, ss, "Int")
 		u.note("calendar function %s is an uninterpreted function of the instant (package time trusted; location fixed per call)", name)
 		return intV(app(f, ts...))
+	}
+}
+
+// zoned: the time value v carrying location z
+func zoned(v Val, z string) Val { v.Zone = z; return v }
+
+// zoneConst: the distinguished locations UTC and Local
+func (u *Unit) zoneConst(name string) string { return u.enc.declConst(name, "Int") }
+
+// zoneOf: the location a time value carries; a value of unknown origin gets an unconstrained one
+func (u *Unit) zoneOf(v Val) string {
+	if v.Zone != "" {
+		return v.Zone
+	}
+	return u.enc.freshConst("zone_unknown", "Int")
+}
+
+// calName: the two-argument calendar function (instant, location)
+func (u *Unit) calFn(name string) string { return u.enc.declFun(name, []string{"Int", "Int"}, "Int") }
+
+// calZone: a calendar function of the instant and the location the value carries
+func calZone(name string, lo, hi int, ranged bool) trustedFn {
+	return func(fr *Frame, st *State, a []Val, _ ssa.Instruction) Val {
+		u := fr.u
+		t := app(u.calFn(name), a[0].T, u.zoneOf(a[0]))
+		if ranged {
+			u.assume(and(app("<=", intLit(int64(lo)), t), app("<=", t, intLit(int64(hi)))))
+		}
+		u.note("calendar function %s is an uninterpreted function of the instant and the location the value carries, with its documented range (package time trusted)", name)
+		return intV(t)
 	}
 }
 
